@@ -127,3 +127,54 @@ def _property_action_contracts():
 
 
 CONTRACTS.extend(_property_action_contracts())
+
+SYM.update({'parameterName': Str, 'objectRef': Str})
+
+
+def _alternatives(fn):
+    doc = _ast.get_docstring(fn) or ''
+    head, _, rhs = doc.partition(':')
+    return head.strip(), [alt.split() for alt in rhs.split('|') if alt.split()]
+
+
+def _parameter_action_contracts():
+    repo = _Repo(_os.environ.get('PYVC_REPO', '/repo'))
+    mod = repo.module('pywbem._mof_compiler')
+    out = []
+    for n in range(1, 5):
+        fname = f'p_parameter_{n}'
+        fi = mod.get_func(fname)
+        if fi is None:
+            continue
+        head, alts = _alternatives(fi.node)
+        for syms in alts:
+            if any(s not in SYM for s in syms):
+                continue
+            pos = {s: i + 1 for i, s in enumerate(syms)}
+            req = [('name-is-the-parameterName-symbol', f"name == caller_p[{pos['parameterName']}]")]
+            if 'dataType' in pos:
+                req.append(('type-is-the-dataType-symbol', f"type == caller_p[{pos['dataType']}]"))
+                req.append(('no-reference-class-for-a-typed-parameter', 'reference_class is None'))
+            else:
+                req.append(('objectRef-symbol-means-a-reference-to-that-class',
+                            f"type == 'reference' and reference_class == caller_p[{pos['objectRef']}]"))
+            if 'array' in pos:
+                req.append(('array-symbol-means-an-array-of-that-size', f"is_array is True and array_size == caller_p[{pos['array']}]"))
+            else:
+                req.append(('no-array-symbol-means-no-array-size', 'array_size is None and not is_array'))
+            if 'qualifierList' in pos:
+                req.append(('qualifierList-symbol-means-qualifiers-are-handed-over', 'qualifiers is not None'))
+            init_c = Contract('pywbem/_cim_obj.py::CIMParameter.__init__', trusted=True,
+                              raises={'TypeError': Raises(), 'ValueError': Raises()}, requires=req)
+            out.append(Contract(
+                f'pywbem/_mof_compiler.py::{fname}', label=' '.join(syms),
+                params={'p': Obj('YaccProduction', __items__=TupleOf(NoneT, *[SYM[s] for s in syms]))},
+                callees={'CIMParameter.__init__': init_c},
+                opaque=['CIMParameter'],
+                ensures=[('production-value-is-the-parameter', 'isinstance(p[0], CIMParameter)')],
+                raises={'TypeError': Raises(), 'ValueError': Raises()},
+                notes=f'rule: {head} : {" ".join(syms)}'))
+    return out
+
+
+CONTRACTS.extend(_parameter_action_contracts())
